@@ -515,6 +515,7 @@ func init() {
 			k := DefaultKnobs()
 			k.NoDecorators = true
 			k.WCycleCloser = 7
+			k.WShadowCycle = 2
 			k.WProvide, k.WInvoke, k.WScope = 10, 6, 5
 			k.PCycleKeep = 60
 			k.PExport = 30
